@@ -19,6 +19,7 @@ pub const KIND_RELALL: u8 = 3;
 pub const KIND_MON: u8 = 4;
 pub const KIND_MONRA: u8 = 5;
 pub const KIND_AK: u8 = 6;
+pub const KIND_MON8: u8 = 7;
 
 #[derive(Default, Clone)]
 pub struct Stats {
@@ -39,6 +40,7 @@ pub struct Stats {
   pub monitor_violations: u64,
   pub impl_panics: u64,
   pub c06_pairs: u64,
+  pub c08_obligation_steps: u64,
   pub nonwf_layouts: u64,
   pub by_source: HashMap<String, u64>,
   pub samples: Vec<String>
@@ -53,7 +55,7 @@ impl Stats {
     self.multi_active_states += o.multi_active_states; self.repeat_requests += o.repeat_requests;
     self.capped_explorations += o.capped_explorations; self.divergences += o.divergences;
     self.monitor_violations += o.monitor_violations; self.impl_panics += o.impl_panics;
-    self.nonwf_layouts += o.nonwf_layouts; self.c06_pairs += o.c06_pairs;
+    self.nonwf_layouts += o.nonwf_layouts; self.c06_pairs += o.c06_pairs; self.c08_obligation_steps += o.c08_obligation_steps;
     for (k, v) in &o.by_source { *self.by_source.entry(k.clone()).or_insert(0) += v; }
     for s in &o.samples { if self.samples.len() < 12 { self.samples.push(s.clone()); } }
   }
@@ -76,8 +78,35 @@ struct Node {
   snap: VerifSnapshot,
   p: Vec<KeyCode>,
   v: Vec<KeyCode>,
+  obls: Vec<Obl>,
   parent: u32,
   ev: Option<Event>
+}
+
+// C08 ghost obligation (mirrors `Obl` / `nextObls` in lean/TmVerif/Monitors.lean; the Lean driver
+// recomputes the update and the two must agree)
+#[derive(Clone, PartialEq, Eq, Debug)]
+pub struct Obl { m: KeyCode, t: KeyCode, midx: usize, fresh: bool, held: Vec<KeyCode> }
+
+fn obls_text(obls: &[Obl]) -> String {
+  if obls.is_empty() { return "-".to_string(); }
+  obls.iter().map(|o| format!("{}.{}.{}.{}.{}", fmt::code(&o.m), fmt::code(&o.t), o.midx, if o.fresh { 1 } else { 0 },
+    if o.held.is_empty() { "~".to_string() } else { let mut c: Vec<i32> = o.held.iter().map(|k| fmt::code(k)).collect(); c.sort(); c.dedup(); c.iter().map(|x| x.to_string()).collect::<Vec<_>>().join("+") })).collect::<Vec<_>>().join(";")
+}
+
+fn next_obls(layout: &Layout, obls: &[Obl], before: &VerifSnapshot, after: &VerifSnapshot, ev: &Event, p2: &[KeyCode]) -> Vec<Obl> {
+  let (k, pressed) = match ev { Event::Pressed(k) => (*k, true), Event::Released(k) => (*k, false) };
+  let mut res: Vec<Obl> = obls.iter().filter(|o| o.m != k).cloned().collect();
+  if !pressed { return res; }
+  if before.input_pressed_keys.contains(&k) { return res; }
+  for o in res.iter_mut() { if o.t != k { o.fresh = false; } }
+  let fired = after.active_mappings.last().filter(|m| m.from.last() == Some(&k)).cloned();
+  if let Some(fm) = fired {
+    res.retain(|o| !fm.absorbing.contains(&o.m));
+    let midx = layout.mappings.iter().position(|x| *x == fm).unwrap_or(usize::MAX);
+    for m in &fm.absorbing { res.push(Obl { m: *m, t: k, midx, fresh: true, held: p2.to_vec() }); }
+  }
+  res
 }
 
 fn clone_snap(s: &VerifSnapshot) -> VerifSnapshot {
@@ -156,7 +185,7 @@ pub fn explore(lean: &mut Lean, source: &str, layout: &Layout, alphabet: &[KeyCo
   let mut seen: HashMap<String, u32> = HashMap::new();
   let init = mapper.verif_snapshot();
   seen.insert(format!("{}#-#-", fmt::state(layout, &init)), 0);
-  nodes.push(Node { snap: init, p: vec![], v: vec![], parent: 0, ev: None });
+  nodes.push(Node { snap: init, p: vec![], v: vec![], obls: vec![], parent: 0, ev: None });
 
   let mut head = 0usize;
   let mut capped = false;
@@ -165,7 +194,7 @@ pub fn explore(lean: &mut Lean, source: &str, layout: &Layout, alphabet: &[KeyCo
   while head < nodes.len() {
     let id = head as u32;
     head += 1;
-    let (snap, p, v) = { let n = &nodes[id as usize]; (clone_snap(&n.snap), n.p.clone(), n.v.clone()) };
+    let (snap, p, v, obls) = { let n = &nodes[id as usize]; (clone_snap(&n.snap), n.p.clone(), n.v.clone(), n.obls.clone()) };
     let state_s = fmt::state(layout, &snap);
     let p_s = fmt::keys(&p);
     let v_s = fmt::keys(&v);
@@ -237,11 +266,16 @@ pub fn explore(lean: &mut Lean, source: &str, layout: &Layout, alphabet: &[KeyCo
             let mut p2 = p.clone();
             if pressed { if !p2.contains(k) { p2.push(*k); p2.sort(); } } else { p2.retain(|x| x != k); }
             let v2 = fold_events(&v, &res.events);
-            let key = format!("{}#{}#{}", after_s, fmt::keys(&p2), fmt::keys(&v2));
+            let obls2 = next_obls(layout, &obls, &snap, &after, &ev, &p2);
+            if !obls.is_empty() || !obls2.is_empty() {
+              stats.c08_obligation_steps += 1;
+              lean.expect(KIND_MON8, id as u64, format!("M8 {} {} {} {} {} {}", p_s, v_s, state_s, ev_s, out, obls_text(&obls)), format!("ok {}", obls_text(&obls2)));
+            }
+            let key = format!("{}#{}#{}#{}", after_s, fmt::keys(&p2), fmt::keys(&v2), obls_text(&obls2));
             if !seen.contains_key(&key) {
               if nodes.len() < max_states {
                 seen.insert(key, nodes.len() as u32);
-                nodes.push(Node { snap: after, p: p2, v: v2, parent: id, ev: Some(ev.clone()) });
+                nodes.push(Node { snap: after, p: p2, v: v2, obls: obls2, parent: id, ev: Some(ev.clone()) });
               }
               else { capped = true; }
             }
@@ -265,6 +299,21 @@ pub fn explore(lean: &mut Lean, source: &str, layout: &Layout, alphabet: &[KeyCo
       let mut history = history_to(&nodes, id);
       let node_state = fmt::state(layout, &nodes[id as usize].snap);
       match m.kind {
+        KIND_MON8 => {
+          let toks: Vec<&str> = m.req.split(' ').collect();
+          if let Some(e) = toks.get(4).and_then(|t| fmt::parse_event(t)) { history.push(e); }
+          let verdict = m.got.split(' ').next().unwrap_or("");
+          if verdict.starts_with("viol:") {
+            stats.monitor_violations += 1;
+            let props: Vec<String> = verdict[5..].split(',').map(|s| s.to_string()).collect();
+            findings.push(Finding { kind: "property".into(), properties: props, source: source.into(), layout: layout.clone(), history, state: node_state, request: m.req.clone(), impl_says: m.req.clone(), model_says: m.got.clone() });
+          }
+          else {
+            // the ghost bookkeeping of the harness and of the Lean monitor disagree: a harness bug, reported as divergence
+            stats.divergences += 1;
+            findings.push(Finding { kind: "divergence".into(), properties: vec![], source: source.into(), layout: layout.clone(), history, state: node_state, request: m.req.clone(), impl_says: m.expected.clone(), model_says: m.got.clone() });
+          }
+        },
         KIND_MON | KIND_MONRA => {
           stats.monitor_violations += 1;
           // request: M <P> <V> <state> <event> <events> <rrepeat> <state'>
@@ -286,6 +335,13 @@ pub fn explore(lean: &mut Lean, source: &str, layout: &Layout, alphabet: &[KeyCo
     let _ = kept;
   }
   stats.lean_requests = lean.sent;
+  // keep at most two findings per (layout source, kind, tags): one violation shows up on many histories
+  let mut kept: Vec<Finding> = Vec::new();
+  for f in findings.drain(..) {
+    let n = kept.iter().filter(|g| g.source == f.source && g.kind == f.kind && g.properties == f.properties).count();
+    if n < 2 { kept.push(f); }
+  }
+  *findings = kept;
 }
 
 // C06 on the implementation: from `start` (a rest state, or the state right after release_all) and from
@@ -490,7 +546,7 @@ pub fn run(opts: &Opts) -> i32 {
     "states_with_two_or_more_active_mappings": stats.multi_active_states,
     "repeat_requests": stats.repeat_requests, "capped_explorations": stats.capped_explorations,
     "divergences": stats.divergences + ak_div, "monitor_violations": stats.monitor_violations,
-    "impl_panics": stats.impl_panics, "c06_pair_states_compared_with_fresh_mapper": stats.c06_pairs, "non_wf_layouts_checked_for_panic": stats.nonwf_layouts,
+    "impl_panics": stats.impl_panics, "c06_pair_states_compared_with_fresh_mapper": stats.c06_pairs, "c08_steps_with_pending_obligation": stats.c08_obligation_steps, "non_wf_layouts_checked_for_panic": stats.nonwf_layouts,
     "transitions_by_source": stats.by_source, "max_held": max_held, "max_states_per_exploration": max_states,
     "samples": stats.samples, "findings": findings.len()
   });
